@@ -7,6 +7,22 @@ import uuid
 UTC0 = dtm.timedelta(0)
 
 
+def chunks_of(v):
+    """bytes -> the chunk sequence handed to spyne.  ByteArray's native value is a sequence
+    of byte chunks of any sizes; the split is a pure function of the value so that a case
+    stays plain data: one third single-chunk lists, the rest 2+ chunks of sizes 1..4
+    (list or tuple)."""
+    if len(v) < 2 or v[-1] % 3 == 0:
+        return [v]
+    k = 1 + v[0] % 4
+    out, i = [], 0
+    while i < len(v):
+        out.append(v[i:i + k])
+        i += k
+        k = k % 4 + 1
+    return tuple(out) if v[-1] % 3 == 2 else out
+
+
 def bytes_of(v):
     """spyne's native ByteArray value is a sequence of byte chunks."""
     if v is None:
